@@ -639,6 +639,14 @@ class PGFile:
         for symbol_fqn, symbol in self.symbols_by_name.items():
             # Must resolve first level without resolve_symbol_by_name
             # as otherwise the override rule itself would be found.
+            if (
+                isinstance(symbol, Terminal)
+                and isinstance(symbol.recognizer, StringRecognizer)
+                and symbol.recognizer.value == symbol_fqn
+            ):
+                # Inline string terminals are named by their text which is
+                # not a qualified name even if it contains a dot.
+                continue
             if "." in symbol_fqn:
                 import_module_name, name = symbol_fqn.split(".", 1)
                 try:
